@@ -545,6 +545,9 @@ func oracle(t []string, out string) *hx.Violation {
 		return expect("reopen", "ok")
 	}
 	if t[0] == "cur" && t[1] != "new" {
+		if atoi(t[1]) >= len(o.curs) {
+			return nil
+		}
 		c := o.curs[atoi(t[1])]
 		x := o.txs[c.tx]
 		if !x.open {
@@ -630,14 +633,23 @@ func oracle(t []string, out string) *hx.Violation {
 		return expect("closed-tx", "err txclosed")
 	}
 	n := x.root.walk(path)
+	if t[0] == "cur" {
+		// the cursor numbering follows the implementation, whatever the oracle thinks of the path
+		if _, err := strconv.Atoi(out); err == nil {
+			o.curs = append(o.curs, &ocur{tx: atoi(t[2]), path: path})
+			if n == nil {
+				return viol("bucket-path", "a cursor was opened on a bucket that the ordered-map model does not have: "+path)
+			}
+			return nil
+		}
+	}
 	if n == nil {
 		return expect("bucket-path", "nobucket")
 	}
 	arg := func(i int) string { return string(bytesOf(t[i])) }
 	switch t[0] {
 	case "cur":
-		o.curs = append(o.curs, &ocur{tx: atoi(t[2]), path: path})
-		return nil
+		return expect("bucket-path", "a cursor id")
 	case "put":
 		if !x.writable {
 			return expect("put", "err notwritable")
@@ -995,7 +1007,84 @@ func genHistory(g *hx.Gen, noMix bool) {
 	}
 }
 
+// a few keys rewritten / deleted / re-put by consecutive commits with a cache that holds at most
+// one commit: every other commit takes the flush + write-through path while the keys it touches
+// are still dirty in the cache (stale cached puts / removes must never win over newer data)
+func genHotHistory(g *hx.Gen) {
+	r := g.R
+	c := &genCtx{g: g, r: r}
+	g.Emit("reset")
+	mode := "never"
+	if r.Chance(15) {
+		mode = "always"
+	}
+	g.Emit("open %d %s %s", r.Pick(0, 0, 1, 200), mode, initialWriteRow())
+	keys := []string{"01", "02", "ff"}
+	hasB := false
+	for i := 0; i < 8+r.Intn(10); i++ {
+		t := c.begin("rw")
+		for k := 0; k < 1+r.Intn(3); k++ {
+			p := "."
+			if hasB && r.Chance(35) {
+				p = "61"
+			}
+			key := keys[r.Intn(len(keys))]
+			switch x := r.Intn(10); {
+			case x < 5:
+				g.Emit("put %d %s %s %s", t.id, p, key, c.val())
+			case x < 8:
+				g.Emit("del %d %s %s", t.id, p, key)
+			case x == 8 && !hasB:
+				if g.Emit("mkb %d . 61", t.id) == "ok" {
+					hasB = true
+				}
+			case x == 9 && hasB:
+				if g.Emit("rmb %d . 61", t.id) == "ok" {
+					hasB = false
+				}
+			}
+		}
+		if r.Chance(12) {
+			g.Emit("rollback %d", t.id)
+			hasB = false
+			// the bucket may or may not exist now; find out
+			q := c.begin("ro")
+			if g.Emit("hasb %d . 61", q.id) == "true" {
+				hasB = true
+			}
+			g.Emit("rollback %d", q.id)
+		} else {
+			g.Emit("commit %d", t.id)
+		}
+		g.Emit("stats")
+		if r.Chance(15) {
+			g.Emit("flush")
+		}
+		if r.Chance(10) {
+			g.Emit("reopen")
+			c.nTx, c.nCur = 0, 0
+		}
+		q := c.begin("ro")
+		for _, key := range keys {
+			g.Emit("get %d . %s", q.id, key)
+		}
+		g.Emit("each %d .", q.id)
+		g.Emit("eachb %d .", q.id)
+		if hasB {
+			g.Emit("each %d 61", q.id)
+		}
+		g.Emit("rollback %d", q.id)
+	}
+	g.Emit("reopen")
+	q := c.begin("ro")
+	g.Emit("each %d .", q.id)
+	g.Emit("rollback %d", q.id)
+}
+
 func gen(g *hx.Gen) {
+	for h := 0; h < g.N(60, 800); h++ {
+		genHotHistory(g)
+	}
 	for h := 0; h < g.N(200, 2500); h++ {
 		genHistory(g, h%3 == 0)
 	}
